@@ -211,8 +211,15 @@ class LTI(InputOutputSystem):
             # solve for the bandwidth, use scipy.optimize.root_scalar() to
             # solve using bisection
             import scipy
+            if self.isdtime(strict=True):
+                # evaluate on the unit circle, as frequency_response does
+                def _gain(w):
+                    return np.abs(self(np.exp(1j * w * self.dt)))
+            else:
+                def _gain(w):
+                    return np.abs(self(1j * w))
             result = scipy.optimize.root_scalar(
-                lambda w: np.abs(self(w*1j)) - np.abs(dcgain)*10**(dbdrop/20),
+                lambda w: _gain(w) - np.abs(dcgain)*10**(dbdrop/20),
                 bracket=[omega[idx_dropped[0] - 1], omega[idx_dropped[0]]],
                 method='bisect')
 
